@@ -19,10 +19,11 @@ import tempfile
 from .. import coqenc as q
 
 ID = 'C18'
-RULE = ('corpus of boundary cases (threshold lengths 9/10/11, empty / rank-0 arrays, negative and '
-        'zero keys, quoting, ties of the %.4f rounding); exhaustive small scopes: every dtype x byte '
-        'order x 16 shapes x 4 memory layouts for save_json/load_json, every list of <= 2 rows over 2 '
-        'fields x 5 cell kinds x both delimiters x first_field for write_tsv/read_tsv, every string of '
+RULE = ('corpus of boundary cases (minimal inputs of the three repaired defects: negative key, non-ASCII digit '
+        'keys, quoted / multi-line parameter strings; threshold lengths 9/10/11, empty / rank-0 arrays, quoting, '
+        'ties of the %.4f rounding, white space around numbers); exhaustive small scopes: every dtype x byte order x '
+        '16 shapes x every memory layout (C, F, strided, reversed) for save_json/load_json, every list of <= 2 rows '
+        'over 2 fields x 5 cell kinds x both delimiters x first_field for write_tsv/read_tsv, every string of '
         'length <= 3 (quick) / 4 (thorough) over a 14-character numeric alphabet for _try_make_number; '
         'then a seeded random stream of nested dictionaries (depth <= 3), tables over 4-6 fields, '
         'two-column cluster tables and parameter dictionaries. Non-trivial = a dictionary holding an '
@@ -404,7 +405,7 @@ def generate(tier, rng):
         for t in itertools.product(NUM_ALPHA, repeat=L):
             cases.append({'kind': 'number', 'inp': {'s': ''.join(t)}})
     # ---- random streams ----
-    nj, nt, ns = (900, 1200, 250) if quick else (25000, 30000, 6000)
+    nj, nt, ns = (900, 1200, 250) if quick else (18000, 22000, 5000)
     for _ in range(nj):
         cases.append(_json_case([[_rand_key(rng), _rand_value(rng, 3 if rng.random() < 0.3 else 2)]
                                  for _ in range(rng.randint(0, 5))], reverse=rng.random() < 0.5))
